@@ -14,6 +14,7 @@ int pp;
 #define PP_F 2
 
 struct { unsigned calls; qtask task; qstr enc; qstr owner; qkey key; } G_tlq;          /* trustLevel(enc, owner, key) */
+struct { unsigned calls; qtask task; qstr enc; qstr jid; int levels; } G_hk;             /* hasKey(enc, jid, levels) */
 struct { unsigned calls; qtask task; qstr enc; KeySet keys; int level; } G_stl;        /* setTrustLevel(enc, keys, level) */
 struct { unsigned calls; qtask task; qstr enc; OwnerList owners; int from, to; } G_stlo; /* setTrustLevel(enc, owners, old, new) */
 struct { unsigned calls; qtask task; qstr enc; } G_pol;                                /* securityPolicy(enc) */
@@ -28,6 +29,16 @@ qtask TrustManager_trustLevel(QXmppAtmManager *self, qstr encryption, qstr keyOw
 __CPROVER_assigns(G_tlq)
 __CPROVER_ensures(G_tlq.calls == __CPROVER_old(G_tlq.calls) + 1 && G_tlq.enc == encryption && G_tlq.owner == keyOwnerJid && G_tlq.key == keyId && __CPROVER_return_value == G_tlq.task)
 ;
+/* QXmppTrustManager::hasKey(encryption, keyOwnerJid, levels): a query about the ACCOUNT -- does it have at least one key whose
+   level is among `levels` (a QFlags mask of TrustLevel bits); the yes/no answer is delivered to the continuation (HASKEY_ANSWER) */
+qtask TrustManager_hasKey(QXmppAtmManager *self, qstr encryption, qstr keyOwnerJid, int trustLevels)
+__CPROVER_assigns(G_hk)
+__CPROVER_ensures(G_hk.calls == __CPROVER_old(G_hk.calls) + 1 && G_hk.enc == encryption && G_hk.jid == keyOwnerJid && G_hk.levels == trustLevels && __CPROVER_return_value == G_hk.task)
+;
+/* what the last hasKey query answers, as far as ONE key of account `jid_` under `e_` with level `level_of_that_key` tells: yes if
+   that key's level is among the levels asked for; otherwise yes or no (another key of the account may have such a level).
+   The answer is a function of (encryption, account, levels), not of any particular key. */
+#define HASKEY_ANSWER(ans, e_, jid_, level_of_that_key) (!(G_hk.enc == (e_) && G_hk.jid == (jid_) && (G_hk.levels & (level_of_that_key)) != 0) || (ans))
 /* QXmppTrustManager::setTrustLevel(encryption, keyIds, level): every (owner, key) in keyIds gets `level`, no other key changes */
 qtask TrustManager_setTrustLevel_keys(QXmppAtmManager *self, qstr encryption, const KeySet *keyIds, int trustLevel)
 __CPROVER_requires(KS_WF(*keyIds))
